@@ -277,6 +277,9 @@ class Cache:
         rnd = self.rnd
         self.history[self.serial] = list(self.data)
         n = (rnd.randint(1, 120) if self.big else rnd.randint(1, 4)) if n is None else n
+        if n and not self.big and rnd.random() < 0.12:
+            self.data = []          # the cache's data set becomes empty (empty full responses, withdraw-all deltas)
+            n = 0
         for _ in range(n):
             x = rnd.choice(self.pool)
             if x in self.data:
